@@ -162,13 +162,15 @@ def compare_with_ref(ref, impl, out, case, what="table differs from the StarTabl
 # ---------------------------------------------------------------- well-formed grids
 
 WF_SPELL = {
-    "text": ["", "a", " a ", "-", "nan", "None", "1.5", "é µ", "*", "x" * 12, " ", "TRUE", "k:", "a\x00b", "z\x00"],
+    "text": ["", "a", " a ", "-", "nan", "None", "1.5", "é µ", "*", "x" * 12, " ", "TRUE", "k:", "a\x00b", "z\x00",
+             # characters str.splitlines() breaks at, but which do not end a line of a text file
+             "a\x0cb", "p\u2028q", "p\u2029q", "u\x85v", "r\x1cs", "r\x1ds", "r\x1es", "v\x0bw"],
     "onoff": ["0", "1", "true", "false", "True", "FALSE", " tRuE ", " 0 ", "TRUE\n"] + rc.BOOL_CASES,
     "datetime": ["2020-01-02", "2020-01-02 03:04:05", "2020-01-02T03:04:05.000006", "2020-1-2", "20200102", "-", "nan",
                  "NaN", " NAN ", " - ", "2262-04-12", "1677-01-01", "2020",
                  # UTC designator / offsets: the parsed value is the zone-aware instant (a column mixing zones is an
                  # input error and is skipped by the oracle)
-                 "2020-08-04T08:00:00Z", "2020-08-04 08:00:00+01:00", "2020-08-04T08:00:00z"],
+                 "2020-08-04T08:00:00Z", "2020-08-04 08:00:00+01:00", "2020-08-04T08:00:00z"] + rc.OFFSET_SPELL,
     "num": ["0", "1", "-1", "1.5", "-0.0", "1e3", "1E-3", ".5", "5.", "+2", "1_000", "inf", "-inf", "Infinity", "1e400",
             "nan", "NaN", "-", " - ", " NAN ", "3.14159265358979", "123456789012345678", "1e-400", " 7 ", "１２", "١٢"]
            + rc.NAN_CASES,
@@ -436,67 +438,8 @@ def run(tier, seed, model_ok, translator, search=False):
     for i in range(n_c):
         native = rng.random() < 0.4
         grid, info = wf_grid(rng, native)
-        case = {"seed": seed, "index": i, "stream": "c", "cells": grid_to_json(grid)}
-        impl = rc.impl_make_table(grid, "strict")
-        try:
-            with warnings.catch_warnings():
-                warnings.simplefilter("ignore")
-                ref = ref_table(grid)
-        except (KeyError, ValueError):
-            out.count("c:reference-interpreter-rejects (not well formed after all, e.g. out-of-range timestamp)")
-            continue            # generator produced a defect after all (e.g. out-of-range timestamp): not WF
-        out.evaluations += 1
-        out.nontrivial.add(hash(repr(grid)))
-        if i < 2:
-            out.samples.append(case)
-        out.count("c:orientation:" + ("transposed" if info["transposed"] else "rowwise"))
-        if "exc" in impl:
-            if impl["exc"] == "ColumnUnitException" and (mixed_offsets(ref) or ns_out_of_range(ref)):
-                out.count("c:mixed-utc-offsets-or-ns-range-skipped")
-                continue        # mixed UTC offsets (or ns precision next to a date outside the ns range) in one
-                #                 datetime column: an input error (C12), not a typing matter
-            out.fail("well-formed grid rejected", case, impl, None, key="wf_rejected:" + impl["exc"])
-            continue
-        if not compare_with_ref(ref, impl["ok"], out, case):
-            continue
-        # "every other unit yields floating-point numbers": the dtype, not only the values
-        kinds = dtype_kinds(grid)
-        bad = [(n, u, k) for n, u, k in zip(impl["ok"]["names"], impl["ok"]["units"], kinds)
-               if info["n_row"] and ((u == "text" and k not in "OUST") or (u == "onoff" and k != "b")
-                                     or (u == "datetime" and k != "M")
-                                     or (u not in ("text", "onoff", "datetime") and k != "f"))]
-        if bad:
-            out.fail("a column's data type is not the one its unit prescribes", case, bad, None, key="dtype")
-            continue
-        if model_ok:
-            ops.append(rc.model_op("make_table", grid, "strict"))
-            pend.append(("make_table", case, impl))
-        # the same cells through read_csv (text cells only): the CSV reader hands the splitter exactly these cells
-        if not native and not check_csv_route(grid, impl["ok"], out, case, i):
-            continue
-        # the JSON form of the same table (make_table_json_data): same typing rules, nothing else turned into a
-        # missing value — numbers by value (infinities stay infinities), NaN / NaT as None
-        if not check_json_form(grid, ref, out, case):
-            continue
-        # the same block inside a stream, after a defective table, read with a collecting tracker:
-        # it is typed by its own unit rows and cells only — nothing carries over from an earlier block
-        from harness.props.c03 import ref_kind
-        if i % 3 == 0 and ref_kind(grid[0]) == "table" and all(ref_kind(list(r)) == "plain" for r in grid[1:]):
-            from harness import blocks_common as bc
-            bad = [["**bad"], ["all"], ["a", "b"], ["-", "onoff"], ["oops", "maybe"], ["1"], []]
-            res = bc.impl_parse_blocks(bad + [list(r) for r in grid], to="pdtable", tracker="collecting")
-            tabs = [b["val"]["table"] for b in res["blocks"] if b["ty"] == "TABLE"]
-            want = {k: v for k, v in impl["ok"].items() if k != "fixer"}
-            if res["ending"] != "exhausted" or not tabs or tabs[-1] != want:
-                out.fail("a well-formed table is typed differently (or rejected) when it follows a defective "
-                         "block in the same stream", case, {"ending": res["ending"], "issues": res["issues"],
-                                                            "last_table": tabs[-1] if tabs else None}, want,
-                         key="stream_context")
-                continue
-        # missing values only from markers / empty native cells / float() itself
-        check_missing_sources(grid, ref, impl["ok"], out, case)
-        # locality: change one cell outside column j (keeping its own column well formed)
-        locality(rng, grid, info, impl["ok"], out, case)
+        case = {"seed": seed, "index": i, "stream": "c", "cells": grid_to_json(grid), "info": info, "native": native}
+        check_wf(grid, info, native, case, i, out, rng, ops, pend, model_ok)
 
     # very wide tables (more columns than CPython's cached small integers): both orientations
     for tr in (False, True):
@@ -529,6 +472,70 @@ def run(tier, seed, model_ok, translator, search=False):
             if ans != impl:
                 out.mismatch(f"{what}: pdtable vs Lean model", case, impl, ans)
     return out
+
+
+def check_wf(grid, info, native, case, i, out, rng, ops, pend, model_ok):
+    """everything stream (c) asks of one well-formed grid (also the body of `replay`)"""
+    impl = rc.impl_make_table(grid, "strict")
+    try:
+        with warnings.catch_warnings():
+            warnings.simplefilter("ignore")
+            ref = ref_table(grid)
+    except (KeyError, ValueError):
+        out.count("c:reference-interpreter-rejects (not well formed after all, e.g. out-of-range timestamp)")
+        return            # generator produced a defect after all (e.g. out-of-range timestamp): not WF
+    out.evaluations += 1
+    out.nontrivial.add(hash(repr(grid)))
+    if i < 2:
+        out.samples.append(case)
+    out.count("c:orientation:" + ("transposed" if info["transposed"] else "rowwise"))
+    if "exc" in impl:
+        if impl["exc"] == "ColumnUnitException" and (mixed_offsets(ref) or ns_out_of_range(ref)):
+            out.count("c:mixed-utc-offsets-or-ns-range-skipped")
+            return        # mixed UTC offsets (or ns precision next to a date outside the ns range) in one
+            #                 datetime column: an input error (C12), not a typing matter
+        out.fail("well-formed grid rejected", case, impl, None, key="wf_rejected:" + impl["exc"])
+        return
+    if not compare_with_ref(ref, impl["ok"], out, case):
+        return
+    # "every other unit yields floating-point numbers": the dtype, not only the values
+    kinds = dtype_kinds(grid)
+    bad = [(n, u, k) for n, u, k in zip(impl["ok"]["names"], impl["ok"]["units"], kinds)
+           if info["n_row"] and ((u == "text" and k not in "OUST") or (u == "onoff" and k != "b")
+                                 or (u == "datetime" and k != "M")
+                                 or (u not in ("text", "onoff", "datetime") and k != "f"))]
+    if bad:
+        out.fail("a column's data type is not the one its unit prescribes", case, bad, None, key="dtype")
+        return
+    if model_ok:
+        ops.append(rc.model_op("make_table", grid, "strict"))
+        pend.append(("make_table", case, impl))
+    # the same cells through read_csv (text cells only): the CSV reader hands the splitter exactly these cells
+    if not native and not check_csv_route(grid, impl["ok"], out, case, i):
+        return
+    # the JSON form of the same table (make_table_json_data): same typing rules, nothing else turned into a
+    # missing value — numbers by value (infinities stay infinities), NaN / NaT as None
+    if not check_json_form(grid, ref, out, case):
+        return
+    # the same block inside a stream, after a defective table, read with a collecting tracker:
+    # it is typed by its own unit rows and cells only — nothing carries over from an earlier block
+    from harness.props.c03 import ref_kind
+    if i % 3 == 0 and ref_kind(grid[0]) == "table" and all(ref_kind(list(r)) == "plain" for r in grid[1:]):
+        from harness import blocks_common as bc
+        bad = [["**bad"], ["all"], ["a", "b"], ["-", "onoff"], ["oops", "maybe"], ["1"], []]
+        res = bc.impl_parse_blocks(bad + [list(r) for r in grid], to="pdtable", tracker="collecting")
+        tabs = [b["val"]["table"] for b in res["blocks"] if b["ty"] == "TABLE"]
+        want = {k: v for k, v in impl["ok"].items() if k != "fixer"}
+        if res["ending"] != "exhausted" or not tabs or tabs[-1] != want:
+            out.fail("a well-formed table is typed differently (or rejected) when it follows a defective "
+                     "block in the same stream", case, {"ending": res["ending"], "issues": res["issues"],
+                                                        "last_table": tabs[-1] if tabs else None}, want,
+                     key="stream_context")
+            return
+    # missing values only from markers / empty native cells / float() itself
+    check_missing_sources(grid, ref, impl["ok"], out, case)
+    # locality: change one cell outside column j (keeping its own column well formed)
+    locality(rng, grid, info, impl["ok"], out, case)
 
 
 def dtype_kinds(grid):
@@ -599,14 +606,30 @@ def replay(rep):
     inp = rep.get("input") or {}
     if "cells" not in inp:
         return False, "replay file has no input (no-failing-input-found): " + str(rep.get("broken"))[:300]
-    seed = int(rep.get("seed", 0))
-    o = run("thorough", seed, model_ok=False, translator=None)
-    hit = [f for f in o.failures if f["input"].get("cells") == inp["cells"]]
-    if hit:
-        return False, hit[0]["what"]
     grid = common_rows_from_json(inp["cells"])
+    o = Outcome()
+    if inp.get("stream") == "c" and "info" in inp:
+        # the well-formed-grid checks, under every routing the stream index selects (file / stream, in-stream context)
+        for i in range(12):
+            check_wf([list(r) for r in grid], inp["info"], bool(inp.get("native")), dict(inp), i, o,
+                     make_rng(int(inp.get("seed", 0)), "C02-replay"), [], [], False)
+            if o.failures:
+                return False, o.failures[0]["what"]
+        return True, "property holds on this input"
     impl = rc.impl_make_table(grid, "strict")
-    return True, "property holds on this input: " + ("ok" if "ok" in impl else impl["exc"])
+    try:
+        with warnings.catch_warnings():
+            warnings.simplefilter("ignore")
+            ref = ref_table(grid)
+    except (KeyError, ValueError):
+        return True, "not a well-formed grid: " + ("ok" if "ok" in impl else impl["exc"])
+    if "exc" in impl:
+        if impl["exc"] == "ColumnUnitException" and (mixed_offsets(ref) or ns_out_of_range(ref)):
+            return True, "input error (mixed offsets / ns range)"
+        return False, "well-formed grid rejected: " + impl["exc"]
+    if not compare_with_ref(ref, impl["ok"], o, inp):
+        return False, o.failures[0]["what"]
+    return True, "property holds on this input"
 
 
 def common_rows_from_json(rows):
